@@ -1,5 +1,6 @@
 import RemocModel.Table.Lemmas
 import RemocModel.Table.ConnSys
+import RemocModel.Table.ConnLog
 set_option linter.unusedSimpArgs false
 
 /-!
@@ -285,6 +286,115 @@ example :
     lookup s.a.ep.ports 1 = some .connecting ∧ s.toA = [.portOpened 1 7] ∧
     (connectedAt s.b.ep 7).map (·.remote) = some 1 ∧
     (connectedAt (run s [(.A, .deliver)]).a.ep 1).map (·.remote) = some 7 := by
+  decide
+
+end Remoc.Table.Sys
+
+namespace Remoc.Table.Sys
+open Remoc.Wire Remoc.Table
+
+def peer : Who → Who
+  | .A => .B
+  | .B => .A
+
+theorem resolves_once_aux (s : St) (lg : List LogEvt) (hi : Inv5 s) (h1 : LogInv s lg) (h2 : LogInv2 s lg) :
+    (∀ x p, nResolved lg x p + pend (side s x) p = nStarted lg x p) ∧
+    (∀ x p, nResolved lg x p ≤ nStarted lg x p) ∧
+    (∀ x p, LogEvt.resolved x p .refusedLocally ∈ lg → (side s (peer x)).ep.listenerDropped = true) := by
+  refine ⟨h1, fun x p => by have := h1 x p; omega, fun x p hin => ?_⟩
+  have hr := h2 x p hin
+  have i3 := hi.i4.i3
+  cases x with
+  | A =>
+    have := i3.fba.lf; simp only [side] at hr; rw [hr] at this
+    cases hl : s.b.ep.listenerDropped with
+    | true => simpa [side, peer] using hl
+    | false => simp [hl, b2n] at this
+  | B =>
+    have := i3.fab.lf; simp only [side] at hr; rw [hr] at this
+    cases hl : s.a.ep.listenerDropped with
+    | true => simpa [side, peer] using hl
+    | false => simp [hl, b2n] at this
+
+/-- **Every connect request resolves at most once, and is resolved or still pending** (ghost log,
+all interleavings).  `runL` records along the run `started x p` for every `Client::connect_ext` that
+queued a request for local port `p` and `resolved x p r` for every resolution: `PortOpened` /
+`Rejected` delivered for the connecting port `p` (the value is the content of the message), or the
+dispatcher answering the request itself because the remote listener is known to be dropped.  For
+every side and port number: resolutions + (1 if a request for it is queued or unanswered) =
+requests started — so no request is resolved twice and none is lost; and a request is refused
+locally only if the peer's listener really was dropped. -/
+theorem resolves_once (mpA cqA mpB cqB : Nat) (ls : List (Who × Lab)) :
+    let r := runL (init mpA cqA mpB cqB, []) ls
+    (∀ x p, nResolved r.2 x p + pend (side r.1 x) p = nStarted r.2 x p) ∧
+    (∀ x p, nResolved r.2 x p ≤ nStarted r.2 x p) ∧
+    (∀ x p, LogEvt.resolved x p .refusedLocally ∈ r.2 → (side r.1 (peer x)).ep.listenerDropped = true) := by
+  intro r
+  obtain ⟨hi, h1, h2⟩ := logInv_runL (init mpA cqA mpB cqB) [] ls (inv5_init mpA cqA mpB cqB)
+    (fun x p => by cases x <;> simp [nResolved, nStarted, pend, pending, side, init, initEp, connPorts, isConnecting, lookup])
+    (fun x p h => by simp at h)
+  exact resolves_once_aux _ _ hi h1 h2
+
+/-- the state component of the logged run is the plain run -/
+theorem resolves_once_state (mpA cqA mpB cqB : Nat) (ls : List (Who × Lab)) :
+    (runL (init mpA cqA mpB cqB, []) ls).1 = run (init mpA cqA mpB cqB) ls := runL_fst _ _ _
+
+/-- **At quiescence no request is pending unless the remote application holds it unanswered.**  In
+every reachable state in which the runtime has nothing left to do and neither endpoint has said
+`Goodbye`: a request of one side for port `p` is pending (queued or unanswered) exactly if it waits
+in the peer's listener queue or is held by the peer's application as a `Request` object. -/
+theorem pending_only_if_held (mpA cqA mpB cqB : Nat) (ls : List (Who × Lab)) :
+    let s := run (init mpA cqA mpB cqB) ls
+    Quiescent s → s.a.ep.goodbyeSent = false → s.b.ep.goodbyeSent = false →
+    (∀ p, pending s.a p = true ↔ (p ∈ s.b.ep.listenQ.map (·.1) ∨ p ∈ s.b.held)) ∧
+    (∀ p, pending s.b p = true ↔ (p ∈ s.a.ep.listenQ.map (·.1) ∨ p ∈ s.a.held)) := by
+  intro s hq ga gb
+  have hi := inv5_run _ ls (inv5_init mpA cqA mpB cqB)
+  obtain ⟨na, nb⟩ := hq.noInt
+  have v := hi.view
+  have core : ∀ {x y : Side} {wxy wyx : List Msg}, View x y wxy wyx → NoInt x wyx → NoInt y wxy →
+      x.ep.goodbyeSent = false → y.ep.goodbyeSent = false →
+      ∀ p, pending x p = true ↔ (p ∈ y.ep.listenQ.map (·.1) ∨ p ∈ y.held) := by
+    intro x y wxy wyx v nx ny gx gy p
+    obtain ⟨e1, e2⟩ := evt_ok y x wyx wxy v.ryx v.qx v.cx v.ax v.hx
+    obtain ⟨x1, _, _, x4⟩ := noInt_dispatching x wyx nx gx e1 e2
+    obtain ⟨f1, f2⟩ := evt_ok x y wxy wyx v.rxy v.qy v.cy v.ay v.hy
+    obtain ⟨_, y2, _, y4⟩ := noInt_dispatching y wxy ny gy f1 f2
+    have hgrx : x.ep.goodbyeReceived = false := by
+      cases hr : x.ep.goodbyeReceived with
+      | false => rfl
+      | true => simp [shouldTerminate, hr] at x4
+    have hgry : y.ep.goodbyeReceived = false := by
+      cases hr : y.ep.goodbyeReceived with
+      | false => rfl
+      | true => simp [shouldTerminate, hr] at y4
+    have hwx : wyx = [] := by
+      rcases noInt_wire x wyx nx (fun m rest hw => by
+          subst hw; exact rx_ok y x m rest wxy v.ryx v.rxy v.pyx v.fyx (v.ctlx m (by simp))) with h' | h'
+      · exact h'
+      · rw [hgrx] at h'; simp at h'
+    have hwy : wxy = [] := by
+      rcases noInt_wire y wxy ny (fun m rest hw => by
+          subst hw; exact rx_ok x y m rest wyx v.rxy v.ryx v.pxy v.fxy (v.ctly m (by simp))) with h' | h'
+      · exact h'
+      · rw [hgry] at h'; simp at h'
+    subst hwx; subst hwy
+    rw [pending_iff, x1]
+    simp only [connPorts, List.not_mem_nil, false_or]
+    rw [v.rxy.conn p]
+    simp only [reqWhere, reqPorts, respPorts, List.nil_append, List.append_nil]
+    rw [← v.rxy.outMem p]
+    simp [outWhere, y2, ansPorts]
+  exact ⟨core v na nb ga gb, core v.swap nb na gb ga⟩
+
+/-- non-vacuity: one request accepted and delivered (resolved once), one answered locally after the
+peer's `ListenerFinish`, one still waiting in the peer's listener queue -/
+example :
+    let r := runL (init 4 2 4 2, []) [(.A, .startConnect 1 true), (.A, .dispConn), (.B, .deliver), (.B, .takeReq true),
+      (.B, .acceptReq 1 7), (.B, .dispPort), (.A, .deliver), (.A, .startConnect 2 true), (.A, .dispConn), (.B, .deliver),
+      (.B, .startConnect 5 true), (.A, .dropListener), (.A, .dispListener), (.B, .deliver), (.B, .dispConn)]
+    r.2 = [.started .A 1, .resolved .A 1 (.accepted 7), .started .A 2, .started .B 5, .resolved .B 5 .refusedLocally] ∧
+    pending r.1.a 2 = true ∧ r.1.b.ep.listenQ = [(2, true)] := by
   decide
 
 end Remoc.Table.Sys
